@@ -2106,7 +2106,7 @@ def read_lines(path_or_source, *, include=False, include_dirs=None):
         base_path = os.path.dirname(os.path.abspath(path))
         for dir in dirs:
             try_path = os.path.join(dir, path)
-            if os.path.exists(try_path):
+            if os.path.isfile(try_path):
                 return try_path
         else:
             return None
